@@ -16,6 +16,10 @@ CLAIMED = {
             "Exploration: every raw, unapproved source marker that reached a sink natively was reported although sanitizers/validators were configured.",
             "Approval of any value containing a source's marker cancels the obligation for that execution (conservative); same exclusions as C01.",
             "DESIGN.md §3 C02"),
+    "C03": ("native ground truth (origin markers found in backtrace-point arguments) vs lines on reported traces; trace validity predicate (ends at entry, consecutive nodes connected)",
+            "Exploration: every origin observed natively in an argument of a backtrace point was on a trace of that argument (eager and on-demand) and every reported trace was well-formed.",
+            "Same dynamic under-approximation and exclusions as C01 (shared flow machinery); connectivity accepts intra-summary edges in either direction because the traversal itself follows both.",
+            "DESIGN.md §3 C03"),
     "C05": ("metamorphic property test: same program under drawn option vectors vs default options (set equality / max-alarms law), generated programs and repository testdata",
             "Exploration: reported pair sets were invariant under every explored option vector; the max-alarms subset/size/non-emptiness law held.",
             "Relies on C06 (determinism) for the baseline; filters matching std packages are only used on import-free programs.",
@@ -34,6 +38,10 @@ CLAIMED = {
             "Trusts the in-process SSA loader to equal the documented loader on import-free programs; flows implied only by the "
             "transitive closure of listed argument flows are not judged.",
             "DESIGN.md §3 C10"),
+    "C12": ("native ground truth: functions entered and (call-site line, callee) pairs from the run-time stack vs reachable set, call-graph edges through wrappers, ResolveCallee",
+            "Exploration: every executed function was in ReachableFunctions() and every dynamic caller->callee transfer had a call-graph edge and was resolved, on the explored dispatch programs.",
+            "Deferred calls are matched against the defers of the functions spanning the line; goroutines are not part of this profile.",
+            "DESIGN.md §3 C12"),
     "C16": ("reference-model comparison: explicit-state enumeration of (block, defer stack) on the SSA CFG vs defers.AnalyzeFunction; rapid sampling + exhaustive small bodies",
             "Exploration (exhaustive for bodies of <= 3/4 statement nodes of the grammar): boundedness and exact stack sets agreed with the model on every body.",
             "The model works on the same SSA CFG the tool sees (x/tools SSA builder trusted).",
@@ -42,6 +50,18 @@ CLAIMED = {
             "Exploration: in/out mirror, call-site, closure and global-location invariants held on every graph inspected.",
             "Graphs are inspected after the analysis returns (public accessors).",
             "DESIGN.md §3 C17"),
+    "C18": ("native ground truth (executed functions) + set laws (call-graph reachable subset, containment, monotonicity in root selection) vs reachability.FindReachable",
+            "Exploration: executed functions were reported reachable, the pointer call graph's reachable functions were contained, and excluding roots never added functions.",
+            "The universe of 'functions of the program' is package members, method sets, their anonymous functions and generic instances.",
+            "DESIGN.md §3 C18"),
+    "C19": ("reference model (generator knows which entry functions have a directly recovering defer) + native crash traces vs argot maypanic JSON findings",
+            "Exploration: every go statement of the explored forms whose entry function lacks a recovering defer was reported with its creation site; crash traces named reported creators.",
+            "Launch forms named by recorded findings (function value, interface method) are excluded from generation and replayed as known findings.",
+            "DESIGN.md §3 C19"),
+    "C20": ("differential test of MapParallel vs Map; race-detector build (-race, halt_on_error) of the analysis driver over generated programs x report options; goroutine-count and report-completeness oracles",
+            "Exploration: no race report, no goroutine outliving Analyze, complete report files and order-preserving MapParallel on the explored cases and schedules.",
+            "The race detector only sees interleavings that occur; GOMAXPROCS variation and repetition sample them.",
+            "DESIGN.md §3 C20"),
 }
 
 PENDING_REASON = "check not built yet in this session (work in progress; see DESIGN.md §5 build order)"
